@@ -15,6 +15,11 @@ REPO = os.environ.get('VSTATIC_REPO', '/repo')
 
 def apply_edit(root, v):
     """Apply variant v to the scratch tree.  Returns None or a reason why it is stale."""
+    if v.get('patch'):
+        import subprocess
+        p = subprocess.run(['patch', '-p1', '-s', '-f', '--no-backup-if-mismatch', '-d', root, '-i', v['patch']],
+                           capture_output=True, text=True)
+        return None if p.returncode == 0 else 'seeded patch no longer applies: ' + (p.stdout + p.stderr).strip()[:120]
     path = os.path.join(root, 'setigen', v['file'])
     if not os.path.exists(path):
         return 'file missing'
@@ -93,9 +98,31 @@ def run_variant(v):
         shutil.rmtree(tmp, ignore_errors=True)
 
 
+def seeded_variants():
+    """confirmed seeded changes (/verif/seeded/<id>/patch.diff) whose meta.json says which checks report them"""
+    import json
+    out = []
+    sd = os.path.join(HERE, 'seeded')
+    if not os.path.isdir(sd):
+        return out
+    for d in sorted(os.listdir(sd)):
+        mp = os.path.join(sd, d, 'meta.json')
+        pp = os.path.join(sd, d, 'patch.diff')
+        if not (os.path.exists(mp) and os.path.exists(pp)):
+            continue
+        meta = json.load(open(mp))
+        for pid in meta.get('checks_reporting_violation', []):
+            if meta.get('kind', 'break') == 'break':
+                out.append({'prop': pid, 'id': f'seeded-{d}', 'kind': 'break', 'patch': pp})
+        for pid in meta.get('checks_silent_required', []):
+            out.append({'prop': pid, 'id': f'seeded-{d}', 'kind': 'benign', 'patch': pp})
+    return out
+
+
 def run_selftest(prop=None, seed=0, verbose=False, ids=None):
     from selftest.corpus import VARIANTS
-    vs = [v for v in VARIANTS if (prop is None or v['prop'] == prop) and (ids is None or v['id'] in ids)]
+    allv = list(VARIANTS) + seeded_variants()
+    vs = [v for v in allv if (prop is None or v['prop'] == prop) and (ids is None or v['id'] in ids)]
     if not vs:
         print(f'[{prop}] selftest: no variants registered')
         return 0
